@@ -428,6 +428,101 @@ def regular (p : Prolog) : Bool :=
   | none => true
   | some d => !(p.standalone && d.ext.isSome) && !(d.subset.getD []).any Decl.isPeRef
 
+/-! ### the event model: what the parser does with the entities of a document
+
+  Modelled behaviour (expat as configured by xml.sax.expatreader / xml.etree.ElementTree):
+    * every entity declaration of the internal subset that is *processed* is reported
+      (EntityDeclHandler / UnparsedEntityDeclHandler) and becomes known to the parser;
+      declarations that follow a reference to an unreadable parameter entity in a document that is
+      not standalone are not processed: the entity stays unknown;
+    * the external subset is requested through ExternalEntityRefHandler when the DOCTYPE closes,
+      unless the document is standalone="yes"; (a reference to an external parameter entity is a
+      second such request, but it can only follow the processed declaration of that entity: it is
+      not an event of the model, the harness filters it out of the recorded sequence; the replacement
+      text of an internal parameter entity is not re-scanned for nested declarations)
+    * a reference `&n;` in the content is replaced by the replacement text of the FIRST processed
+      declaration of the general entity `n` if that is an internal one (`expanded`); it is an error
+      ("undefined entity") if no processed declaration exists or the entity is an external parsed one
+      (ElementTree installs no ExternalEntityRefHandler: nothing is fetched), and an error
+      ("reference to binary entity") if it is unparsed.
+  Tied to the real parsers by the driver op `events` (harness: recording expat parser for the prolog
+  events, ElementTree for the references). -/
+
+inductive PEv where
+  | declared (v : Verdict)          -- a processed entity declaration, as the handler sees it (`entityVerdict`)
+  | extSubset                       -- the external subset is requested
+  | expanded (name : Bytes)         -- a reference is replaced by the entity's replacement text
+  | undefinedRef (name : Bytes)     -- "undefined entity": nothing expanded, nothing fetched
+  | binaryRef (name : Bytes)        -- "reference to binary entity": nothing expanded, nothing fetched
+  deriving DecidableEq, Repr
+
+/-- the processed entity declarations of an internal subset, in document order
+    (`keep` as in `firstLive`: expat's dtd->keepProcessing; `acc` = the declarations processed so far:
+    a reference to an internal parameter entity among them is expanded in place and leaves `keep`
+    alone, any other PE reference — undeclared, or external and not read — sets keep := standalone) -/
+def EntDef.isValue : EntDef → Bool
+  | .value _ => true
+  | _ => false
+
+def liveEntsAux (sa : Bool) : Bool → List (Bool × Bytes × EntDef) → List Decl → List (Bool × Bytes × EntDef)
+  | _, _, [] => []
+  | keep, acc, .entity param name d :: ds =>
+    -- a second declaration of the same (general / parameter) entity is ignored and not reported: the first binds
+    if keep && !acc.any (fun e => e.1 == param && e.2.1 == name) then
+      (param, name, d) :: liveEntsAux sa keep (acc ++ [(param, name, d)]) ds
+    else liveEntsAux sa keep acc ds
+  | keep, acc, .peRef name :: ds =>
+    liveEntsAux sa (if acc.any (fun e => e.1 && e.2.1 == name && e.2.2.isValue) then keep else keep && sa) acc ds
+  | keep, acc, _ :: ds => liveEntsAux sa keep acc ds
+
+def liveEnts (sa : Bool) (keep : Bool) (ds : List Decl) : List (Bool × Bytes × EntDef) :=
+  liveEntsAux sa keep [] ds
+
+def Prolog.liveEnts (p : Prolog) : List (Bool × Bytes × EntDef) :=
+  match p.doctype with
+  | none => []
+  | some d => XsVerif.Prolog.liveEnts p.standalone true (d.subset.getD [])
+
+/-- whether the parser requests the external subset -/
+def Prolog.extRequested (p : Prolog) : Bool :=
+  match p.doctype with
+  | none => false
+  | some d => d.ext.isSome && !p.standalone
+
+/-- what a recording parser (handlers that return instead of raising) reports for the prolog -/
+def prologEvents (p : Prolog) : List PEv :=
+  p.liveEnts.map (fun e => .declared (entityVerdict e.2.1 e.2.2)) ++
+    (if p.extRequested then [.extSubset] else [])
+
+/-- the first processed declaration of the general entity `name` -/
+def lookupGeneral (name : Bytes) : List (Bool × Bytes × EntDef) → Option EntDef
+  | [] => none
+  | (param, n, d) :: es => if !param && n = name then some d else lookupGeneral name es
+
+/-- the fate of a reference `&name;` in the content of the document -/
+def refEvent (p : Prolog) (name : Bytes) : PEv :=
+  match lookupGeneral name p.liveEnts with
+  | some (.value _) => .expanded name
+  | some (.ndata _ _) => .binaryRef name
+  | some (.ext _) => .undefinedRef name
+  | none => .undefinedRef name
+
+/-- prolog events followed by the fate of each reference of the content -/
+def docEvents (p : Prolog) (refs : List Bytes) : List PEv :=
+  prologEvents p ++ refs.map (refEvent p)
+
+/-- an event in which the parser expands an entity or asks for an external resource -/
+def PEv.hot : PEv → Bool
+  | .expanded _ => true
+  | .extSubset => true
+  | _ => false
+
+/-- the verdict of a scan whose handlers raise at the first event -/
+def verdictOfEvents : List PEv → Verdict
+  | .declared v :: _ => v
+  | .extSubset :: _ => .external
+  | _ => .clean
+
 /-! ### well-formedness of the pieces the grammar prints as they are -/
 
 def isName : Bytes → Bool
